@@ -20,7 +20,7 @@ COMPONENTS = ['gc']
 THEOREMS = ['C03_trace_table_exact', 'C03_trace_table_covers',
             'C03_gc_exact', 'C03_gc_keeps_reachable', 'C03_gc_resets', 'C03_gc_idempotent',
             'C03_gc_order_irrelevant', 'C03_baseline_return', 'C03_baseline_return_perm',
-            'C03_gc_no_panic', 'C03_gc_spec', 'C03_goal_holds',
+            'C03_gc_no_panic', 'C03_gc_spec', 'C03_history_gc_exact', 'C03_run_ops_never_fails', 'C03_goal_holds',
             'C03_cyc2', 'C03_ring', 'C03_nonvacuous']
 ALLOWED_AXIOMS = set()
 
